@@ -760,7 +760,7 @@ class BaseBackend(CodeGen):
                 state_rec[idx, :] = y
                 idx += 1
             step = i + t0
-            rhs = func(step, y, *args)
+            rhs = np.array(func(step, y, *args))  # copy: func returns its (reused) output buffer
             y_0 = y + dt * rhs
             y += dt/2 * (rhs + func(step, y_0, *args))
             if has_dde:
